@@ -256,6 +256,10 @@ class Distributed(strategy.Strategy):
                 strat.world_state = new_world_state
                 # run sub-strategy
                 commands = strat.step()["commands"]
+                # bring the charging stations in line with what the sub-strategy booked at the GC
+                # (not every strategy keeps track of cs.current_power; the surplus pass below relies on it)
+                for cs_id, cs in new_world_state.charging_stations.items():
+                    cs.current_power = gc.current_loads.get(cs_id, 0)
                 # update stationary batteries
                 if station_type == "opps":
                     for b_id, battery in self.gc_battery.get(gc_id, {}).items():
